@@ -235,8 +235,8 @@ theorem rangeFunc_total (args : List PVal) (hn : ∀ a ∈ args, a.NumOK) : isPa
     where the driver falls back to it (≈13 % of the builtin cases); the builtins the correspondence compares
     everywhere are `Ecal.Ev`'s `lenB addB delB concatB newB` (see `eval_never_panics_frag`: calls are the
     remaining gap). `new` is not transcribed here any more (the model is `Ecal.Ev.newB`). For `len add del concat
-    raise` the transcription is tied to the evaluator by `prims_builtins_agree_with_ev` (same class on every
-    argument vector); `range` and `type` stay transcription-only. -/
+    raise type` the transcription is tied to the evaluator by `prims_builtins_agree_with_ev` (same class on every
+    argument vector); `range` stays transcription-only. -/
 theorem builtin_total (name : String) (args : List PVal) (hn : ∀ a ∈ args, a.NumOK) (r : R PVal)
     (h : builtin name args = some r) : isPanic r = false := by
   unfold builtin at h
@@ -251,28 +251,31 @@ theorem builtin_total (name : String) (args : List PVal) (hn : ∀ a ∈ args, a
   · exact typeFunc_total _
 
 open Ecal.Lemmas.C06PrimsTie Ecal.Ev in
-/-- **The Prims transcriptions of `len`, `del`, `add`, `concat`, `raise` are tied to the evaluator model** (five of
-    the seven builtins in `Prims.builtin`). For every argument vector (any length, any kinds) and every heap,
-    `Prims.lenFunc / delFunc / addFunc / concatFunc / raiseSite` on the abstraction of the arguments (`absV`: kind,
-    list length, map size, `int(x)`) and the evaluator's `lenB / delB / addB / concatB` and the `"raise"` branch of
-    `runBuiltin` (any fuel > 0, scope, call node) — the functions the driver runs — end in the same class (value /
-    error value), unless the evaluator model leaves itself (`unsupported` or fuel: a string / opaque / NaN / ±9e18 /
-    non-integral index, a map key its printer does not cover; for `concat` a result whose capacity is beyond the
-    size classes `appendVals` models; for `raise` an error type or detail its printer does not cover). So for these
-    five `builtin_total` is a statement about the compared model's argument checks. Compared is the CLASS only, not
-    the error text or the resulting list.
-    Still transcription-only (no theorem ties them to `Ecal.Ev`): `range` and `type` in `Prims.builtin` (`range`
-    returns iterator state the abstraction does not carry; the `"type"` branch of `runBuiltin` exists but no lemma
-    about it is proved), and the two engine
-    transcriptions `sinkAttrSite`, `stateKeySite` (the rule engine is not in the evaluator model). -/
+/-- **The Prims transcriptions of `len`, `del`, `add`, `concat`, `raise`, `type` are tied to the evaluator model** (six
+    of the seven builtins in `Prims.builtin`). For every argument vector (any length, any kinds) and every heap,
+    `Prims.lenFunc / delFunc / addFunc / concatFunc / raiseSite / typeFunc` on the abstraction of the arguments
+    (`absV`: kind, list length, map size, `int(x)`) and the evaluator's `lenB / delB / addB / concatB` and the
+    `"raise"` and `"type"` branches of `runBuiltin` (any fuel > 0, scope, call node) — the functions the driver runs —
+    end in the same class (value / error value), unless the evaluator model leaves itself (`unsupported` or fuel: a
+    string / opaque / NaN / ±9e18 / non-integral index, a map key its printer does not cover; for `concat` a result
+    whose capacity is beyond the size classes `appendVals` models; for `raise` an error type or detail its printer
+    does not cover; for `type` a value its `%#v` printer `goSyntax` does not cover — a map, a function, a non-integral
+    number, a string that needs quoting — `goSyntax_out`, induction on the fuel). So for these six `builtin_total` is a
+    statement about the compared model's argument checks. Compared is the CLASS only, not the error text, the
+    resulting list or the printed type.
+    Still transcription-only (no theorem ties them to `Ecal.Ev`): `range` in `Prims.builtin` (it returns iterator
+    state the abstraction does not carry), and the two engine transcriptions `sinkAttrSite`, `stateKeySite` (the
+    rule engine is not in the evaluator model). -/
 theorem prims_builtins_agree_with_ev :
     (∀ (args : List Val) (s : St), Agree ((lenB args).run.run s).1 (lenFunc (args.map (absV s)))) ∧
     (∀ (args : List Val) (s : St), Agree ((delB args).run.run s).1 (delFunc (args.map (absV s)))) ∧
     (∀ (args : List Val) (s : St), Agree ((addB args).run.run s).1 (addFunc (args.map (absV s)))) ∧
     (∀ (args : List Val) (s : St), Agree ((concatB args).run.run s).1 (concatFunc (args.map (absV s)))) ∧
     (∀ (f sc : Nat) (node : Ecal.Parse.Node) (args : List Val) (s : St),
-      Agree ((runBuiltin (f+1) sc node "raise" args).run.run s).1 (raiseSite (args.map (absV s)))) :=
-  ⟨len_agree, del_agree, add_agree, concat_agree, raise_agree⟩
+      Agree ((runBuiltin (f+1) sc node "raise" args).run.run s).1 (raiseSite (args.map (absV s)))) ∧
+    (∀ (f sc : Nat) (node : Ecal.Parse.Node) (args : List Val) (s : St),
+      Agree ((runBuiltin (f+1) sc node "type" args).run.run s).1 (typeFunc (args.map (absV s)))) :=
+  ⟨len_agree, del_agree, add_agree, concat_agree, raise_agree, type_agree⟩
 
 /-- non-vacuity: the hypotheses hold for concrete vectors (also a negative fraction: int(-0.5) = int(0.5) = 0),
     and the builtins do distinguish errors from values -/
